@@ -82,10 +82,20 @@ def prepare(vobject_items: List[vobject.base.Component], path: str,
                 vobject_components_by_uid = itertools.groupby(
                     sorted(vobject_components, key=radicale_item.get_uid),
                     radicale_item.get_uid)
+                vobject_timezones = getattr(vobject_item, "vtimezone_list", [])
                 for _, components in vobject_components_by_uid:
                     vobject_collection = vobject.iCalendar()
+                    tzids = set()
                     for component in components:
                         vobject_collection.add(component)
+                        tzids.update(radicale_item.get_tzids(component))
+                    # Keep the uploaded definitions of the referenced time
+                    # zones, otherwise vobject generates substitutes
+                    for vobject_timezone in vobject_timezones:
+                        tzid = vobject_timezone.getChildValue("tzid")
+                        if tzid in tzids:
+                            tzids.remove(tzid)
+                            vobject_collection.add(vobject_timezone)
                     vobject_collection.add(vobject.base.ContentLine("PRODID", [], PRODID))
                     item = radicale_item.Item(collection_path=collection_path,
                                               vobject_item=vobject_collection)
